@@ -31,6 +31,8 @@ class TCPServer:
         self.protocol: ProtocolWrapper
         self.reading = True
         self.send_lock = trio.Lock()
+        self.sending = False
+        self.sends = 0
         self.idle_task = TrioSingleTask()
         self.stream = stream
         self.state = state
@@ -80,6 +82,10 @@ class TCPServer:
                     # The peer is gone, do not wait for the keep alive timeout
                     self.reading = False
                     await self.idle_task.stop()
+                    # The client may only have finished sending, what is
+                    # still being written to it is waited for (as the
+                    # tasks of the group are)
+                    nursery.start_soon(self._close_forcefully_if_not_taken, finished)
                 finished.set()
         except OSError:
             pass
@@ -98,13 +104,27 @@ class TCPServer:
             await trio.aclose_forcefully(self.stream)
             raise
 
+    async def _close_forcefully_if_not_taken(self, finished: trio.Event) -> None:
+        # ... though a client that lets a write to it wait for as long
+        # as an idle connection is kept is not waited for.
+        while not finished.is_set():
+            sent = self.sends
+            with trio.move_on_after(self.config.keep_alive_timeout):
+                await finished.wait()
+            if not finished.is_set() and self.sending and self.sends == sent:
+                await trio.aclose_forcefully(self.stream)
+                return
+
     async def protocol_send(self, event: Event) -> None:
         if isinstance(event, RawData):
             async with self.send_lock:
                 try:
+                    self.sending = True
                     with trio.CancelScope() as cancel_scope:
                         cancel_scope.shield = True
                         await self.stream.send_all(event.data)
+                    self.sends += 1
+                    self.sending = False
                 except (
                     trio.BrokenResourceError,
                     trio.BusyResourceError,  # _close is sending the EOF
